@@ -10,11 +10,16 @@ cd $W/r
 out=/verif/seeded/$NAME; mkdir -p $out
 cp $SRC/patch.diff $out/patch.diff; cp $SRC/demo.diff $out/demo.diff; cp $SRC/notes.md $out/notes.md 2>/dev/null
 git apply $out/demo.diff || { echo "demo does not apply"; exit 1; }
-demo_mod=$(grep -h '^+++ b/src/.*\.rs' $out/demo.diff | sed 's|+++ b/src/||; s|\.rs$||; s|/|::|g' | grep -v 'mod$' | head -1)
-demo_filter=$(echo $demo_mod | sed 's/.*:://')
-cargo test --offline --lib $demo_filter > $W/demo_without.txt 2>&1; rc_without=$?
+itest=$(grep -h '^+++ b/tests/.*\.rs' $out/demo.diff | sed 's|+++ b/tests/||; s|\.rs$||' | head -1)
+if [ -n "$itest" ]; then
+  demo_filter="--test $itest"; runargs="--offline --test $itest"
+else
+  demo_mod=$(grep -h '^+++ b/src/.*\.rs' $out/demo.diff | sed 's|+++ b/src/||; s|\.rs$||; s|/|::|g' | grep -v 'mod$' | head -1)
+  demo_filter=$(echo $demo_mod | sed 's/.*:://'); runargs="--offline --lib $demo_filter"
+fi
+cargo test $runargs > $W/demo_without.txt 2>&1; rc_without=$?
 git apply $out/patch.diff || { echo "patch does not apply"; exit 1; }
-cargo test --offline --lib $demo_filter > $W/demo_with.txt 2>&1; rc_with=$?
+cargo test $runargs > $W/demo_with.txt 2>&1; rc_with=$?
 cargo test --workspace --no-fail-fast --offline > $W/all_with.txt 2>&1
 python3 - "$W" "$ID" "$NAME" "$rc_without" "$rc_with" "$demo_filter" <<'PY'
 import sys,re,json
@@ -28,7 +33,7 @@ flaky=[t for t in bad if t.startswith('core::server::')]
 bad=[t for t in bad if t not in flaky]
 meta={"property":ID,"name":NAME,"demo_filter":flt,"demo_passes_without_patch":rcwo=='0',"demo_fails_with_patch":rcw!='0',
  "stable_tests_failing_with_patch":bad,"stable_tests_port_clash_rerun_needed":flaky,
- "ran":["git apply demo.diff; cargo test --offline --lib "+flt+" (expect pass)","git apply patch.diff; cargo test --offline --lib "+flt+" (expect fail)","cargo test --workspace --no-fail-fast --offline (67 stable tests must pass)"],
+ "ran":["git apply demo.diff; cargo test --offline (--lib|--test) "+flt+" (expect pass)","git apply patch.diff; same command (expect fail)","cargo test --workspace --no-fail-fast --offline (67 stable tests must pass)"],
  "base":"clone of /repo with the fix: commits applied"}
 json.dump(meta,open('/verif/seeded/%s/meta.json'%NAME,'w'),indent=1)
 print(json.dumps(meta))
